@@ -1,0 +1,69 @@
+// SPDX-FileCopyrightText: 2026 The Pion community <https://pion.ly>
+// SPDX-License-Identifier: MIT
+
+//go:build verif
+
+package webrtc
+
+// Contracts for C04 (negotiationneeded fires only in stable state, once per needed
+// negotiation). Comments only; syntax in /verif/DESIGN.md section 4.
+
+// The application's OnNegotiationNeeded handler as called from negotiationNeededOp
+// (ghost counter negEvents); assumed not to write this package's memory or re-enter.
+//@ func localfn (*PeerConnection).negotiationNeededOp.handler
+//@ trusted
+//@ props C04
+//@ ghost negEvents += 1
+//@ modifies nothing
+
+// Assumed: the negotiation-needed test only reads (it takes locks and inspects the
+// descriptions and transceivers); what it computes is outside C04.
+//@ func (*PeerConnection).checkNegotiationNeeded
+//@ trusted
+//@ props C04
+//@ modifies nothing
+
+// W3C [[NegotiationNeeded]] is written only by the update step and by setDescription;
+// the "update on empty chain" flag only by the three functions that implement 4.7.3.
+//@ field PeerConnection.isNegotiationNeeded* props C04 writers (*PeerConnection).negotiationNeededOp, (*PeerConnection).setDescription
+//@ field PeerConnection.updateNegotiationNeededFlagOnEmptyChain* props C04 writers (*PeerConnection).onNegotiationNeeded, (*PeerConnection).negotiationNeededOp, (*operations).start, (*API).NewPeerConnection, newOperations
+
+// (The three flags are separate atomic.Bool cells allocated by NewPeerConnection: stated as a
+// precondition of each unit.)
+// The update step (W3C 4.7.3.2), run on the operations queue. The handler is invoked only
+// when, in program order before the call, the connection was not closed, the queue was
+// empty, the signaling state was stable, and [[NegotiationNeeded]] was false and has just
+// been set; at most once per run; never while the flag is already set.
+//@ func (*PeerConnection).negotiationNeededOp
+//@ props C04
+//@ requires pcValid(pc) && pc.ops.ops != nil && ghost(qhead) <= ghost(qtail)
+//@ requires !sameobj(pc.isClosed, pc.isNegotiationNeeded) && !sameobj(pc.isClosed, pc.updateNegotiationNeededFlagOnEmptyChain) && !sameobj(pc.isNegotiationNeeded, pc.updateNegotiationNeededFlagOnEmptyChain)
+//@ atcall localfn (*PeerConnection).negotiationNeededOp.handler assert !pc.isClosed.Load()
+//@ atcall localfn (*PeerConnection).negotiationNeededOp.handler assert pc.signalingState == SignalingStateStable
+//@ atcall localfn (*PeerConnection).negotiationNeededOp.handler assert ghost(qtail) == ghost(qhead)
+//@ atcall localfn (*PeerConnection).negotiationNeededOp.handler assert !old(pc.isNegotiationNeeded.Load()) && pc.isNegotiationNeeded.Load() && ghost(negEvents) == old(ghost(negEvents))
+//@ ensures ghost(negEvents) == old(ghost(negEvents)) || ghost(negEvents) == old(ghost(negEvents)) + 1
+//@ ensures old(pc.isNegotiationNeeded.Load()) ==> ghost(negEvents) == old(ghost(negEvents))
+//@ ensures ghost(negEvents) != old(ghost(negEvents)) ==> pc.isNegotiationNeeded.Load() && !old(pc.isClosed.Load()) && old(pc.signalingState) == SignalingStateStable
+//@ ensures old(pc.isClosed.Load()) || old(pc.signalingState) != SignalingStateStable || old(ghost(qtail)) != old(ghost(qhead)) ==> ghost(negEvents) == old(ghost(negEvents)) && pc.isNegotiationNeeded.Load() == old(pc.isNegotiationNeeded.Load())
+//@ ensures pc.signalingState == old(pc.signalingState) && pc.isClosed.Load() == old(pc.isClosed.Load())
+
+// Scheduling the update step (W3C 4.7.3.1): with work queued only the flag is raised;
+// otherwise the update step is queued (it does not run, and nothing fires, in this call).
+//@ func (*PeerConnection).onNegotiationNeeded
+//@ props C04
+//@ requires pcValid(pc) && pc.ops.ops != nil && ghost(qhead) <= ghost(qtail) && ghost(qtail) < 1<<62
+//@ requires !sameobj(pc.isClosed, pc.isNegotiationNeeded) && !sameobj(pc.isClosed, pc.updateNegotiationNeededFlagOnEmptyChain) && !sameobj(pc.isNegotiationNeeded, pc.updateNegotiationNeededFlagOnEmptyChain)
+//@ atcall (*operations).Enqueue assert ghost(qtail) == ghost(qhead)
+//@ ensures old(ghost(qtail)) != old(ghost(qhead)) ==> pc.updateNegotiationNeededFlagOnEmptyChain.Load() && ghost(qtail) == old(ghost(qtail))
+//@ ensures pc.isNegotiationNeeded.Load() == old(pc.isNegotiationNeeded.Load()) && pc.signalingState == old(pc.signalingState)
+
+// [[NegotiationNeeded]] is cleared by setDescription only when the exchange reaches stable.
+//@ func (*PeerConnection).setDescription #negflag
+//@ props C04
+//@ nosafety
+//@ requires pcValid(pc) && sd != nil && pc.ops.ops != nil
+//@ requires !sameobj(pc.isClosed, pc.isNegotiationNeeded) && !sameobj(pc.isClosed, pc.updateNegotiationNeededFlagOnEmptyChain) && !sameobj(pc.isNegotiationNeeded, pc.updateNegotiationNeededFlagOnEmptyChain)
+//@ requires validSignalingState(pc.signalingState) && specDescInv(pc)
+//@ ensures pc.isNegotiationNeeded.Load() != old(pc.isNegotiationNeeded.Load()) ==> err == nil && pc.signalingState == SignalingStateStable && !pc.isNegotiationNeeded.Load()
+//@ ensures err == nil && pc.signalingState == SignalingStateStable ==> !pc.isNegotiationNeeded.Load()
